@@ -5,6 +5,7 @@ import (
 	"flag"
 	"fmt"
 	"os"
+	"os/exec"
 	"path/filepath"
 	"regexp"
 	"sort"
@@ -25,6 +26,17 @@ type PropConfig struct {
 		Packages  []string `json:"packages"`
 	} `json:"extra_modules"`
 	MinObligations int `json:"min_obligations"`
+	// bounded stand-ins: real functions outside the verifier's reach, executed exhaustively up to a stated bound against
+	// the contract the proofs assume for them; never counted as proved
+	Bounded []BoundedCheck `json:"bounded"`
+}
+
+type BoundedCheck struct {
+	Name      string   `json:"name"`
+	StandsFor string   `json:"stands_for"`
+	Bound     string   `json:"bound"`
+	Cmd       []string `json:"cmd"`
+	Tiers     []string `json:"tiers"`
 }
 
 type KnownFinding struct {
@@ -311,6 +323,30 @@ func cmdCheck(args []string) int {
 			}
 		}
 	}
+	// bounded stand-ins (labelled bounded; not part of the obligation counts)
+	var boundedReps []map[string]any
+	if *only == "" {
+		for _, b := range cfg.Bounded {
+			if len(b.Tiers) > 0 && !hasProp(b.Tiers, *tier) {
+				continue
+			}
+			tb := time.Now()
+			cmd := exec.Command(b.Cmd[0], b.Cmd[1:]...)
+			cmd.Dir = *verifDir
+			cmd.Env = os.Environ()
+			outB, err := cmd.CombinedOutput()
+			res := "held on everything explored"
+			if err != nil {
+				res = "FAILED"
+				_ = os.MkdirAll(replayDir, 0o755)
+				rp := filepath.Join(replayDir, "bounded_"+mangle(b.Name)+".log")
+				_ = os.WriteFile(rp, append([]byte(fmt.Sprintf("bounded stand-in %q (%s) failed: %v\ncommand: %v\n\n", b.Name, b.Bound, err, b.Cmd)), outB...), 0o644)
+				violations = append(violations, fmt.Sprintf("VIOLATION property=%s replay=%s", cfg.ID, rp))
+			}
+			fmt.Printf("  bounded        %-8s %6.2fs          %s [%s]\n", map[bool]string{true: "ok", false: "FAILED"}[err == nil], time.Since(tb).Seconds(), b.Name, b.Bound)
+			boundedReps = append(boundedReps, map[string]any{"name": b.Name, "stands_for": b.StandsFor, "bound": b.Bound, "command": strings.Join(b.Cmd, " "), "result": res, "seconds": time.Since(tb).Seconds()})
+		}
+	}
 	for _, k := range knownHits {
 		fmt.Println(k)
 	}
@@ -327,7 +363,7 @@ func cmdCheck(args []string) int {
 	fmt.Printf("property %s: %d/%d obligations discharged, %d/%d vacuity guards reachable, %d known-finding obligations, %d violations, %.1fs (solver %.1fs)\n",
 		cfg.ID, nDischarged, nProof, nVacOK, nVac, len(knownHits), len(violations), wall, solverTime)
 	if !*noEvidence && *only == "" {
-		writeEvidence(*verifDir, &cfg, *tier, seed, reports, obReps, nProof, nDischarged, nVac, nVacOK, append(knownHits, observations...), violations, toolErrs, wall, solverTime, backends, to)
+		writeEvidence(*verifDir, &cfg, *tier, seed, reports, obReps, nProof, nDischarged, nVac, nVacOK, append(knownHits, observations...), violations, toolErrs, wall, solverTime, backends, to, boundedReps)
 	}
 	if len(violations) > 0 {
 		return 1
@@ -379,7 +415,7 @@ func truncate(s string, n int) string {
 }
 
 func writeEvidence(verifDir string, cfg *PropConfig, tier string, seed int, reports []*FuncReport, obs []obReport, nProof, nDis, nVac, nVacOK int,
-	known, violations, toolErrs []string, wall, solver float64, backends map[string]int, to int) {
+	known, violations, toolErrs []string, wall, solver float64, backends map[string]int, to int, bounded []map[string]any) {
 	var funcs []map[string]any
 	trusted := map[string]bool{}
 	assume := map[string]bool{}
@@ -426,7 +462,7 @@ func writeEvidence(verifDir string, cfg *PropConfig, tier string, seed int, repo
 		"backends":                 backends,
 		"samples":                  samples,
 		"tool_errors":              toolErrs,
-		"bounded_standins":         []any{},
+		"bounded_standins":         boundedOrEmpty(bounded),
 	}
 	ev := map[string]any{
 		"property_id": cfg.ID, "tier": tier, "seed": seed, "level": "proof", "coverage": cov, "assumptions": as, "wall_s": wall, "violations": len(violations),
@@ -439,6 +475,13 @@ func writeEvidence(verifDir string, cfg *PropConfig, tier string, seed int, repo
 func maxInt(a, b int) int {
 	if a > b {
 		return a
+	}
+	return b
+}
+
+func boundedOrEmpty(b []map[string]any) any {
+	if len(b) == 0 {
+		return []any{}
 	}
 	return b
 }
